@@ -4157,6 +4157,506 @@ fn zipwin(out: &mut Out, work: &str, seed: u64, thorough: bool) {
 	out.flush();
 }
 
+/// one view of the header MMR: under `header_pmmr.read()` the MMR's head is the LMDB header head and
+/// EVERY height up to the header head's maps to the ancestor of the header head at that height
+fn strong_header_view(c: &Chain, by_hash: &HashMap<Hash, usize>, parent: &[Option<usize>], heights: &[u64], hashes: &[Hash]) -> Option<String> {
+	let hp = c.header_pmmr();
+	let g = hp.read();
+	let hh = match c.header_head() {
+		Ok(x) => x,
+		Err(e) => return Some(format!("header_head() failed: {}", error_class(&e))),
+	};
+	let name = |h: &Hash| by_hash.get(h).map(|i| format!("b{}", i)).unwrap_or_else(|| format!("{}", h));
+	match g.head_hash() {
+		Ok(mh) if mh == hh.last_block_h => {}
+		Ok(mh) => return Some(format!("under header_pmmr.read(): the header MMR's head is {} but the header head in the db is {} @ {}", name(&mh), name(&hh.last_block_h), hh.height)),
+		Err(e) => return Some(format!("under header_pmmr.read(): head_hash() failed: {}", error_class(&e))),
+	}
+	let mut x = by_hash.get(&hh.last_block_h).cloned();
+	while let Some(i) = x {
+		match g.get_header_hash_by_height(heights[i]) {
+			Ok(v) if v == hashes[i] => {}
+			Ok(v) => {
+				return Some(format!(
+					"under header_pmmr.read(): height {} maps to {} but the ancestor of the header head {} @ {} at that height is b{}",
+					heights[i], name(&v), name(&hh.last_block_h), hh.height, i
+				))
+			}
+			Err(e) => return Some(format!("under header_pmmr.read(): no entry at height {} ({}) although the header head is {} @ {}", heights[i], error_class(&e), name(&hh.last_block_h), hh.height)),
+		}
+		x = parent[i];
+	}
+	None
+}
+
+/// Run `tie` (C17, 'data read under one view is mutually consistent' for the HEADER chain): headers
+/// and blocks with EXACTLY EQUAL total difficulty.  Tree: a trunk T_1..T_L (random difficulties,
+/// 0-2 transactions per block) with a sibling S_h of every T_h below the tip on the same parent with
+/// the same difficulty (equal total work, other transactions), and a tail: T' and T'' on T_L with
+/// equal difficulty and a child C of T''.  A sequential twin gets, per height, header T_h, header
+/// S_h (the tie: arrives when the header head has exactly its work), block T_h, block S_h, then
+/// header T', header T'', block T'', block T', block C - every line also through the chain model
+/// (`chain hdr` / `chain deliver` / `chain obs` / `chain reopen`), the strong header view checked
+/// after every step.  The subject gets the same multiset from threads: D1 (trunk, header-first), D2
+/// (siblings, header-first, each racing with D1's header of the same height), D3
+/// (`sync_block_headers` chunks of both), readers (strong header view, head stored / work
+/// monotone); after the join two peers deliver T' and T'' header-first AT THE SAME TIME while the
+/// readers run, then C; then validate, close, REOPEN, header view, validate; state = twin = model.
+fn tie(out: &mut Out, work: &str, seed: u64, thorough: bool) {
+	for (op, class) in [
+		("process_block_header", "write"),
+		("process_block", "write"),
+		("sync_block_headers", "write"),
+		("header_pmmr", "lockfree"),
+		("header_head", "lockfree"),
+		("head", "lockfree"),
+		("get_block", "lockfree"),
+		("validate", "write"),
+	] {
+		out.line(&format!("conc opclass {}", op), class);
+	}
+	let rounds = if thorough { 12 } else { 4 };
+	let mut stats: BTreeMap<String, u64> = BTreeMap::new();
+	let mut rng = Rng::new(seed ^ 0x71E);
+	for round in 0..rounds {
+		let tag = format!("#ORACLE-FAIL C17 tie round={} seed={}:", round, seed);
+		let kit = Kit::new(&format!("{}/tie_builder{}", work, round));
+		let mut b = Builder { kit, states: BTreeMap::new(), stats: BTreeMap::new(), reserved: Default::default() };
+		let mut s0 = BTreeMap::new();
+		s0.insert(0usize, (0u64, true));
+		b.states.insert(0, s0);
+		let len = rng.range(5, 9);
+		let mut trunk: Vec<usize> = vec![0];
+		let mut sibs: Vec<Option<usize>> = vec![None];
+		let mut ok = true;
+		for h in 1..=len {
+			let parent = *trunk.last().unwrap();
+			let d = rng.range(1, 4);
+			let t = match b.add(&mut rng, parent, d, if h > 3 { 2 } else { 0 }) {
+				Some(t) => t,
+				None => {
+					ok = false;
+					break;
+				}
+			};
+			let s = if h < len { b.add(&mut rng, parent, d, if h > 3 { 1 } else { 0 }) } else { None };
+			if let Some(s) = s {
+				if b.kit.blks[s].work != b.kit.blks[t].work || b.kit.blks[s].block.hash() == b.kit.blks[t].block.hash() {
+					ok = false;
+					break;
+				}
+			}
+			trunk.push(t);
+			sibs.push(s);
+		}
+		let tl = *trunk.last().unwrap();
+		let d = rng.range(1, 4);
+		let (t1, t2) = match (b.add(&mut rng, tl, d, 1), b.add(&mut rng, tl, d, 0)) {
+			(Some(a), Some(c)) if ok => (a, c),
+			_ => {
+				out.raw(&format!("#STAT tie:generator-failed-round={}", round));
+				continue;
+			}
+		};
+		let cc = match b.add(&mut rng, t2, 1, 1) {
+			Some(c) => c,
+			None => continue,
+		};
+		let kit = &b.kit;
+		if kit.blks[t1].work != kit.blks[t2].work || kit.blks[t1].block.hash() == kit.blks[t2].block.hash() {
+			out.raw(&format!("#STAT tie:generator-tail-not-a-tie-round={}", round));
+			continue;
+		}
+		*stats.entry("tie:equal-work-pairs".into()).or_insert(0) += sibs.iter().filter(|s| s.is_some()).count() as u64 + 1;
+		out.raw("chain reset");
+		for l in kit.out_lines(0) {
+			out.raw(&l);
+		}
+		for id in 0..kit.blks.len() {
+			out.raw(&kit.blk_line(id));
+		}
+		let by_hash: Arc<HashMap<Hash, usize>> = Arc::new(kit.by_hash.clone());
+		let parent: Arc<Vec<Option<usize>>> = Arc::new(kit.blks.iter().map(|r| r.parent).collect());
+		let heights: Arc<Vec<u64>> = Arc::new(kit.blks.iter().map(|r| r.height).collect());
+		let hashes: Arc<Vec<Hash>> = Arc::new(kit.blks.iter().map(|r| r.block.hash()).collect());
+		let blocks: Arc<Vec<Block>> = Arc::new(kit.blks.iter().map(|r| r.block.clone()).collect());
+
+		// --- the sequential twin, through the chain model; every step followed by the header view
+		let name = format!("tw{}", round);
+		let mut twin = Subject::new(&format!("{}/tie_twin{}", work, round), &kit.genesis);
+		out.raw(&format!("chain new {}", name));
+		let mut history: Vec<String> = vec![];
+		let mut twin_bad = false;
+		{
+			let mut step = |twin: &Subject, out: &mut Out, kind: &str, id: usize, history: &mut Vec<String>, twin_bad: &mut bool| {
+				let r = if kind == "hdr" { twin.deliver_header(&kit.blks[id].block.header) } else { twin.deliver_block(&kit.blks[id].block) };
+				out.line(&format!("chain {} {} b{}", kind, name, id), &r);
+				history.push(format!("{} b{} (height {}, total work {}) -> {}", if kind == "hdr" { "header" } else { "block" }, id, kit.blks[id].height, kit.blks[id].work, r));
+				if let Some(m) = strong_header_view(twin.c(), &by_hash, &parent, &heights, &hashes) {
+					if !*twin_bad {
+						out.raw(&format!("{} single thread, delivery history [{}]: {}", tag, history.join("; "), m));
+					}
+					*twin_bad = true;
+				}
+			};
+			for h in 1..=(len as usize) {
+				step(&twin, out, "hdr", trunk[h], &mut history, &mut twin_bad);
+				if let Some(s) = sibs[h] {
+					step(&twin, out, "hdr", s, &mut history, &mut twin_bad);
+				}
+				step(&twin, out, "deliver", trunk[h], &mut history, &mut twin_bad);
+				if let Some(s) = sibs[h] {
+					step(&twin, out, "deliver", s, &mut history, &mut twin_bad);
+				}
+			}
+			out.line(&format!("chain obs {}", name), &twin.obs(kit));
+		}
+		let twin_mid = twin.obs(kit);
+
+		// --- the subject: the same multiset from threads
+		let subj = Arc::new(Subject::new(&format!("{}/tie_subject{}", work, round), &kit.genesis));
+		let trunk_done = Arc::new(AtomicUsize::new(0));
+		let done = Arc::new(AtomicBool::new(false));
+		let progress = Arc::new(AtomicUsize::new(0));
+		let (txc, rxc) = mpsc::channel::<(usize, Vec<String>, Vec<String>)>();
+		let trunk_a: Arc<Vec<usize>> = Arc::new(trunk.clone());
+		let sibs_a: Arc<Vec<Option<usize>>> = Arc::new(sibs.clone());
+		let n_writers = 3usize;
+		let n_readers = 2usize;
+		for w in 0..n_writers {
+			let (subj, trunk_done, progress, txc, blocks, trunk_a, sibs_a) = (subj.clone(), trunk_done.clone(), progress.clone(), txc.clone(), blocks.clone(), trunk_a.clone(), sibs_a.clone());
+			let mut prng = Rng::new(rng.next() ^ (w as u64 * 0x91));
+			std::thread::spawn(move || {
+				setup_globals();
+				let mut log: Vec<String> = vec![];
+				let mut bad: Vec<String> = vec![];
+				let n = trunk_a.len() - 1;
+				for h in 1..=n {
+					// everybody starts height h once block T_{h-1} is in (the parent of both candidates)
+					let t0 = Instant::now();
+					while trunk_done.load(Ordering::SeqCst) + 1 < h && t0.elapsed() < Duration::from_secs(20) {
+						std::thread::yield_now();
+					}
+					let r = std::panic::catch_unwind(AssertUnwindSafe(|| {
+						let mut l = vec![];
+						match w {
+							0 => {
+								l.push(format!("header b{} -> {}", trunk_a[h], subj.deliver_header(&blocks[trunk_a[h]].header)));
+								if prng.chance(1, 2) {
+									std::thread::yield_now();
+								}
+								l.push(format!("block b{} -> {}", trunk_a[h], subj.deliver_block(&blocks[trunk_a[h]])));
+							}
+							1 => {
+								if let Some(s) = sibs_a[h] {
+									l.push(format!("header b{} -> {}", s, subj.deliver_header(&blocks[s].header)));
+									if prng.chance(1, 2) {
+										std::thread::sleep(Duration::from_micros(prng.range(10, 400)));
+									}
+									l.push(format!("block b{} -> {}", s, subj.deliver_block(&blocks[s])));
+								}
+							}
+							_ => {
+								// header sync of both candidates of this height, in either order
+								let mut hs: Vec<usize> = vec![trunk_a[h]];
+								if let Some(s) = sibs_a[h] {
+									if prng.chance(1, 2) { hs.push(s) } else { hs.insert(0, s) }
+								}
+								for i in hs {
+									l.push(format!("sync_block_headers [b{}] -> {}", i, subj.sync_headers(&[blocks[i].header.clone()])));
+								}
+							}
+						}
+						l
+					}));
+					match r {
+						Ok(l) => {
+							for x in &l {
+								let res = x.rsplit(" -> ").next().unwrap_or("");
+								if !(res.starts_with("ok") || res == "err:Unfit") {
+									bad.push(format!("a valid header / block was refused: {}", x));
+								}
+							}
+							log.extend(l);
+						}
+						Err(_) => bad.push(format!("a delivery of height {} panicked (writer {})", h, w)),
+					}
+					if w == 0 {
+						trunk_done.store(h, Ordering::SeqCst);
+					}
+					progress.fetch_add(1, Ordering::SeqCst);
+				}
+				let _ = txc.send((w, log, bad));
+			});
+		}
+		let spawn_reader = |r: usize, subj: Arc<Subject>, done: Arc<AtomicBool>, progress: Arc<AtomicUsize>, txc: mpsc::Sender<(usize, Vec<String>, Vec<String>)>| {
+			let (by_hash, parent, heights, hashes) = (by_hash.clone(), parent.clone(), heights.clone(), hashes.clone());
+			std::thread::spawn(move || {
+				setup_globals();
+				let mut bad: Vec<String> = vec![];
+				let mut n = 0u64;
+				let mut last_work = 0u64;
+				loop {
+					let fin = done.load(Ordering::SeqCst);
+					n += 1;
+					let c = subj.c();
+					let res = std::panic::catch_unwind(AssertUnwindSafe(|| -> Option<String> {
+						if let Some(m) = strong_header_view(c, &by_hash, &parent, &heights, &hashes) {
+							return Some(m);
+						}
+						let h = c.head().ok()?;
+						if h.height > 0 && c.get_block(&h.last_block_h).is_err() {
+							return Some(format!("head {} @ {} names a block that is not stored", h.last_block_h, h.height));
+						}
+						let w = h.total_difficulty.to_num();
+						if w < last_work {
+							return Some(format!("head work decreased {} -> {}", last_work, w));
+						}
+						last_work = w;
+						None
+					}));
+					match res {
+						Ok(Some(m)) => {
+							if bad.len() < 2 {
+								bad.push(m);
+							}
+						}
+						Ok(None) => {}
+						Err(_) => {
+							if bad.len() < 2 {
+								bad.push("a reader panicked".into());
+							}
+						}
+					}
+					progress.fetch_add(1, Ordering::SeqCst);
+					if fin {
+						break;
+					}
+					if n % 4 == 0 {
+						std::thread::yield_now();
+					}
+				}
+				let _ = txc.send((100 + r, vec![format!("views={}", n)], bad));
+			})
+		};
+		for r in 0..n_readers {
+			spawn_reader(r, subj.clone(), done.clone(), progress.clone(), txc.clone());
+		}
+		let mut logs: Vec<Vec<String>> = vec![vec![]; n_writers];
+		let mut any_bad = false;
+		let collect = |n_expect: usize, rxc: &mpsc::Receiver<(usize, Vec<String>, Vec<String>)>, logs: &mut Vec<Vec<String>>, any_bad: &mut bool, out: &mut Out, stats: &mut BTreeMap<String, u64>, phase: &str, done_after: Option<&AtomicBool>, writers: usize| {
+			let stall = Duration::from_secs(if thorough { 120 } else { 60 });
+			let mut finished = 0usize;
+			let mut writers_left = writers;
+			let mut last = (progress.load(Ordering::SeqCst), Instant::now());
+			let mut pending_bad: Vec<(usize, Vec<String>)> = vec![];
+			while finished < n_expect {
+				match rxc.recv_timeout(Duration::from_millis(200)) {
+					Ok((i, log, bad)) => {
+						finished += 1;
+						if i < 100 {
+							if i < logs.len() {
+								logs[i].extend(log);
+							}
+							writers_left = writers_left.saturating_sub(1);
+							if writers_left == 0 {
+								if let Some(d) = done_after {
+									d.store(true, Ordering::SeqCst);
+								}
+							}
+						} else {
+							*stats.entry(format!("tie:reader-views:{}", phase)).or_insert(0) += log.get(0).and_then(|s| s.trim_start_matches("views=").parse::<u64>().ok()).unwrap_or(0);
+						}
+						if !bad.is_empty() {
+							pending_bad.push((i, bad));
+						}
+					}
+					Err(_) => {
+						let c = progress.load(Ordering::SeqCst);
+						if c != last.0 {
+							last = (c, Instant::now());
+							continue;
+						}
+						if last.1.elapsed() < stall {
+							continue;
+						}
+						out.raw(&format!("#ORACLE-FAIL C17 deadlock tie round={} seed={} phase={}: no step of any thread completed for {:?}", round, seed, phase, stall));
+						out.flush();
+						std::process::exit(0);
+					}
+				}
+			}
+			for (i, bad) in pending_bad {
+				*any_bad = true;
+				for m in bad {
+					let hist: Vec<String> = logs.iter().enumerate().map(|(t, l)| format!("thread {}: {}", t, l.join("; "))).collect();
+					out.raw(&format!("{} phase {} ({}): {} | deliveries (concurrent, per thread): [{}]", tag, phase, if i >= 100 { "reader" } else { "writer" }, m, hist.join(" || ")));
+				}
+			}
+		};
+		collect(n_writers + n_readers, &rxc, &mut logs, &mut any_bad, out, &mut stats, "trunk+siblings", Some(&done), n_writers);
+		let mid = subj.obs(kit);
+		out.line(&format!("chain obs {}", name), &mid);
+		if mid != twin_mid {
+			out.raw(&format!("{} after the trunk and its equal-work siblings were delivered header-first from 3 threads the node is at [{}], the sequential twin at [{}]", tag, mid, twin_mid));
+			any_bad = true;
+		}
+		if let Some(m) = strong_header_view(subj.c(), &by_hash, &parent, &heights, &hashes) {
+			out.raw(&format!("{} after the join of phase 1: {}", tag, m));
+			any_bad = true;
+		}
+
+		// --- the tail: twin sequentially (header T', header T'', block T'', block T', block C) ...
+		{
+			let mut step = |twin: &Subject, out: &mut Out, kind: &str, id: usize, history: &mut Vec<String>, twin_bad: &mut bool| {
+				let r = if kind == "hdr" { twin.deliver_header(&kit.blks[id].block.header) } else { twin.deliver_block(&kit.blks[id].block) };
+				out.line(&format!("chain {} {} b{}", kind, name, id), &r);
+				history.push(format!("{} b{} (height {}, total work {}) -> {}", if kind == "hdr" { "header" } else { "block" }, id, kit.blks[id].height, kit.blks[id].work, r));
+				if let Some(m) = strong_header_view(twin.c(), &by_hash, &parent, &heights, &hashes) {
+					if !*twin_bad {
+						out.raw(&format!("{} single thread, delivery history [{}]: {}", tag, history.join("; "), m));
+					}
+					*twin_bad = true;
+				}
+			};
+			step(&twin, out, "hdr", t1, &mut history, &mut twin_bad);
+			step(&twin, out, "hdr", t2, &mut history, &mut twin_bad);
+			step(&twin, out, "deliver", t2, &mut history, &mut twin_bad);
+			step(&twin, out, "deliver", t1, &mut history, &mut twin_bad);
+			step(&twin, out, "deliver", cc, &mut history, &mut twin_bad);
+		}
+		let twin_end = twin.obs(kit);
+		out.line(&format!("chain obs {}", name), &twin_end);
+		let tv = twin.c().validate(false);
+		let reopened = twin.reopen();
+		out.line(&format!("chain reopen {}", name), &match &reopened { Ok(()) => "ok".to_string(), Err(e) => format!("err:{}", e) });
+		match (&tv, &reopened) {
+			(Ok(()), Ok(())) => {
+				if let Some(m) = strong_header_view(twin.c(), &by_hash, &parent, &heights, &hashes) {
+					out.raw(&format!("{} single thread, after the restart, delivery history [{}]: {}", tag, history.join("; "), m));
+					twin_bad = true;
+				}
+				if let Err(e) = twin.c().validate(false) {
+					out.raw(&format!("{} single thread: validate fails after the restart: {} - delivery history [{}]", tag, error_class(&e), history.join("; ")));
+					twin_bad = true;
+				}
+				out.line(&format!("chain obs {}", name), &twin.obs(kit));
+			}
+			(v, r) => {
+				out.raw(&format!("{} single thread: validate {:?} / restart {:?} after the delivery history [{}]", tag, v.as_ref().map_err(error_class), r, history.join("; ")));
+				twin_bad = true;
+			}
+		}
+
+		// --- ... the subject concurrently: two peers deliver T' and T'' header-first at the same time
+		done.store(false, Ordering::SeqCst);
+		let (txc2, rxc2) = mpsc::channel::<(usize, Vec<String>, Vec<String>)>();
+		let gate = Arc::new(AtomicUsize::new(0));
+		for (w, id) in [(0usize, t1), (1usize, t2)] {
+			let (subj, progress, txc2, blocks, gate) = (subj.clone(), progress.clone(), txc2.clone(), blocks.clone(), gate.clone());
+			std::thread::spawn(move || {
+				setup_globals();
+				let mut log = vec![];
+				let mut bad = vec![];
+				gate.fetch_add(1, Ordering::SeqCst);
+				let t0 = Instant::now();
+				while gate.load(Ordering::SeqCst) < 2 && t0.elapsed() < Duration::from_secs(5) {
+					std::hint::spin_loop();
+				}
+				let r = std::panic::catch_unwind(AssertUnwindSafe(|| {
+					let a = subj.deliver_header(&blocks[id].header);
+					let b2 = subj.deliver_block(&blocks[id]);
+					(a, b2)
+				}));
+				match r {
+					Ok((a, b2)) => {
+						if a != "ok" && a != "err:Unfit" {
+							bad.push(format!("the header of b{} (equal work to its sibling) was refused: {}", id, a));
+						}
+						if !b2.starts_with("ok") && b2 != "err:Unfit" {
+							bad.push(format!("block b{} (equal work to its sibling) was refused: {}", id, b2));
+						}
+						log.push(format!("header b{} -> {}", id, a));
+						log.push(format!("block b{} -> {}", id, b2));
+					}
+					Err(_) => bad.push(format!("the delivery of b{} panicked", id)),
+				}
+				progress.fetch_add(1, Ordering::SeqCst);
+				let _ = txc2.send((w, log, bad));
+			});
+		}
+		for r in 0..n_readers {
+			spawn_reader(r, subj.clone(), done.clone(), progress.clone(), txc2.clone());
+		}
+		let mut logs2: Vec<Vec<String>> = vec![vec![]; 2];
+		collect(2 + n_readers, &rxc2, &mut logs2, &mut any_bad, out, &mut stats, "tip-tie", Some(&done), 2);
+		let first = subj.c().head().map(|h| kit.bid(&h.last_block_h)).unwrap_or_default();
+		*stats.entry(format!("tie:tip-winner={}", if first == format!("b{}", t1) { "first-built" } else if first == format!("b{}", t2) { "second-built" } else { "other" })).or_insert(0) += 1;
+		if let Some(m) = strong_header_view(subj.c(), &by_hash, &parent, &heights, &hashes) {
+			out.raw(&format!("{} after two peers delivered the equal-work tips b{} and b{} header-first at the same time [{} || {}]: {}", tag, t1, t2, logs2[0].join("; "), logs2[1].join("; "), m));
+			any_bad = true;
+		}
+		let rc = subj.deliver_block(&kit.blks[cc].block);
+		if !rc.starts_with("ok") {
+			out.raw(&format!("{} the child b{} of the tip b{} is refused: {}", tag, cc, t2, rc));
+			any_bad = true;
+		}
+		let end = subj.obs(kit);
+		out.line(&format!("chain obs {}", name), &end);
+		if end != twin_end {
+			out.raw(&format!("{} after the equal-work tips and the deciding child the node is at [{}], the sequential twin at [{}]", tag, end, twin_end));
+			any_bad = true;
+		}
+		if let Some(m) = strong_header_view(subj.c(), &by_hash, &parent, &heights, &hashes) {
+			out.raw(&format!("{} after the deciding child b{}: {}", tag, cc, m));
+			any_bad = true;
+		}
+		// --- validate, close, REOPEN, header view, validate
+		let v1 = subj.c().validate(false);
+		let mut verdict = "ok".to_string();
+		match Arc::try_unwrap(subj) {
+			Ok(mut s) => {
+				let ro = s.reopen();
+				match (&v1, &ro) {
+					(Ok(()), Ok(())) => {
+						if let Some(m) = strong_header_view(s.c(), &by_hash, &parent, &heights, &hashes) {
+							out.raw(&format!("{} after the restart of the concurrently fed node: {}", tag, m));
+							any_bad = true;
+						}
+						if let Err(e) = s.c().validate(false) {
+							out.raw(&format!("{} validate fails after the restart of the concurrently fed node: {}", tag, error_class(&e)));
+							any_bad = true;
+						}
+						let after = s.obs(kit);
+						out.line(&format!("chain obs {}", name), &after);
+						if after != twin_end {
+							out.raw(&format!("{} after the restart the node is at [{}], before at [{}]", tag, after, twin_end));
+							any_bad = true;
+						}
+					}
+					(v, r) => {
+						let hist: Vec<String> = logs.iter().chain(logs2.iter()).enumerate().map(|(t, l)| format!("thread {}: {}", t, l.join("; "))).collect();
+						out.raw(&format!("{} validate {:?} / restart {:?} of the concurrently fed node; deliveries [{}]", tag, v.as_ref().map_err(error_class), r, hist.join(" || ")));
+						verdict = "restart-fails".into();
+					}
+				}
+			}
+			Err(_) => out.raw(&format!("{} harness: the subject is still shared", tag)),
+		}
+		if twin_bad {
+			verdict = "twin-failed".into();
+		} else if any_bad && verdict == "ok" {
+			verdict = "failed".into();
+		}
+		out.line(&format!("conc tie round={} trunk={} pairs={}", round, len, sibs.iter().filter(|s| s.is_some()).count() + 1), &verdict);
+		out.flush();
+	}
+	for (k, v) in &stats {
+		out.raw(&format!("#STAT {}={}", k, v));
+	}
+	out.flush();
+}
+
 fn main() {
 	quiet_panics();
 	setup_globals();
@@ -4187,6 +4687,10 @@ fn main() {
 	}
 	if mode == "txcount" {
 		txcount(&mut out, &work, seed_from_env(), tier_thorough());
+		return;
+	}
+	if mode == "tie" {
+		tie(&mut out, &work, seed_from_env(), tier_thorough());
 		return;
 	}
 	if mode == "zipwin" {
